@@ -54,6 +54,9 @@ func (rs *runState) judge(prop string, clientFinished bool, out *core.Outcome) {
 	// observed on the environment's side: the TNC reported the end of a link
 	// before the Dial call that was setting it up had returned.
 	tag := reg.tag()
+	if p.TNC.Has(func(e ardoptnc.Ev) bool { return e.Kind == "arq" && e.DelayUs > 60_000_000 }) {
+		sim.Probe("arq-frame-after-more-than-a-minute-of-silence")
+	}
 	if p.TNC.Has(func(e ardoptnc.Ev) bool { return e.Kind == "arq" && e.Rep > 4096 }) {
 		sim.Probe("arq-run-longer-than-the-receive-queue")
 	}
